@@ -559,10 +559,32 @@ func (m *Model) applyDDL(t *Table, s *Stmt) (verdict, error) {
 				r.Vals[s.NewName] = val
 				delete(r.Vals, s.Col)
 			}
+			r.Viol = renameViolKeys(r.Viol, "", s.Col, s.NewName)
 		}
+		m.ViolLog = renameViolKeys(m.ViolLog, t.Name+"\x00", s.Col, s.NewName)
 		v.Effects++
 	default:
 		return v, fmt.Errorf("unknown statement kind %s", s.Kind)
 	}
 	return v, nil
+}
+
+// renameViolKeys follows a column rename in attribution keys ("<prefix>...kind:col1,col2").
+func renameViolKeys(m map[string]string, prefix, oldName, newName string) map[string]string {
+	out := make(map[string]string, len(m))
+	for k, v := range m {
+		i := strings.LastIndexByte(k, ':')
+		if i < 0 || !strings.HasPrefix(k, prefix) {
+			out[k] = v
+			continue
+		}
+		cols := strings.Split(k[i+1:], ",")
+		for j := range cols {
+			if cols[j] == oldName {
+				cols[j] = newName
+			}
+		}
+		out[k[:i+1]+strings.Join(cols, ",")] = v
+	}
+	return out
 }
